@@ -25,7 +25,23 @@ KIT = [
     ["call", 18, "operator.getitem", [["$", 7], 0]],
     ["call", 19, "ufl.TestFunction", [["$", 4]]],
     ["call", 20, "operator.mul", [["$", 10], ["$", 19]]],
+    ["call", 21, "ufl.outer", [["$", 11], ["$", 11]]],
+    ["call", 22, "operator.mul", [2, ["$", 11]]],
 ]
+# operands for late types that derive from concrete compound operators
+CONCRETE_OPS = {
+    "Inner": [11, 22],
+    "Dot": [11, 22],
+    "Outer": [11, 22],
+    "Trace": [21],
+    "Sym": [21],
+    "Transposed": [21],
+    "Div": [11],
+    "Grad": [5],
+    "Sin": [5],
+    "Sqrt": [5],
+    "Conj": [5],
+}
 KIT_SCALARS = [5, 6, 8, 9, 10, 12, 13, 15, 17, 18, 20]
 KIT_ALL = [5, 6, 7, 8, 9, 10, 11, 12, 13, 15, 16, 17, 18, 20]
 
@@ -112,6 +128,8 @@ REAL_ALGS = [
     "str",
     "expand_derivatives",
     "formatter_tree",
+    "apply_geometry_lowering",
+    "apply_restrictions_default",
 ]
 FAULT_FILES = ["corealg/multifunction.py", "algorithms/transformer.py"]
 
@@ -174,6 +192,8 @@ class C20(Scenario):
                         return t[4]
             if base in CONCRETE_GEO:
                 return "geo"
+            if base in CONCRETE_OPS:
+                return "cmp:" + base
             return {
                 "Operator": "op",
                 "MathFunction": "math",
@@ -194,6 +214,12 @@ class C20(Scenario):
             b = a + rng.randint(2, 5)
             phases = (a, b)
             n_target = max(n_target, b + 8)
+        if arm == "real-algs":
+            # UFL's own algorithms have been used in this process before any type is
+            # registered (module-level tables filled on first use)
+            for _ in range(rng.randint(2, 7)):
+                units.append({"n": 0, "k": "applyreal", "op": ["applyreal", None, rng.choice(REAL_ALGS), rng.choice(KIT_ALL + [21, 22])]})
+            n_target += len(units)
         while len(units) < n_target:
             if phases is not None:
                 if len(units) < phases[0]:
@@ -214,8 +240,10 @@ class C20(Scenario):
                     base = ["mi", ["$", rng.choice(opt)[0]], rng.choice(["Conj", "Real", "Imag"])]
                 elif types and rng.random() < (0.3 if arm != "late-family" else 0.7):
                     base = ["$", (types[-1] if arm == "late-family" and rng.random() < 0.7 else rng.choice(types))[0]]
-                elif arm == "real-algs" and rng.random() < 0.5:
-                    base = rng.choice(CONCRETE_GEO)
+                elif arm == "real-algs" and rng.random() < 0.6:
+                    base = rng.choice(CONCRETE_GEO + sorted(CONCRETE_OPS))
+                elif rng.random() < 0.1:
+                    base = rng.choice(sorted(CONCRETE_OPS))
                 else:
                     base = rng.choice(TYPE_BASES)
                 abstract = rng.random() < 0.15
@@ -229,6 +257,9 @@ class C20(Scenario):
                 t = rng.choice(conc)
                 if t[4] == "geo":
                     arg = ["$", 2]
+                    used = {t[0]}
+                elif t[4].startswith("cmp:"):
+                    arg = [["$", s_] for s_ in CONCRETE_OPS[t[4][4:]]]
                     used = {t[0]}
                 elif t[4] == "term":
                     arg = None
@@ -325,7 +356,11 @@ class C20(Scenario):
             elif k == "applyreal":
                 pool = [e[0] for e in exprs] * 4 + KIT_ALL
                 e = rng.choice(pool)
-                units.append({"n": 0, "k": "applyreal", "op": ["applyreal", None, rng.choice(REAL_ALGS), e]})
+                alg = rng.choice(REAL_ALGS)
+                if rng.random() < 0.4:
+                    # the passes every form goes through on its way to a form compiler
+                    alg = rng.choice(["apply_algebra_lowering", "expand_derivatives", "estimate_degree", "remove_complex_nodes", "renumber_indices", "apply_geometry_lowering"])
+                units.append({"n": 0, "k": "applyreal", "op": ["applyreal", None, alg, e]})
             elif k == "regrule":
                 dts = [c for c in classes if c[1] == "DT"]
                 if not dts or not types:
@@ -445,7 +480,9 @@ class C20(Scenario):
             elif u["k"] == "newexpr":
                 ts = {op[2][1]}
                 if op[3] is not None:
-                    ts |= expr_types.get(op[3][1], set())
+                    refs = [op[3]] if op[3] and op[3][0] == "$" else op[3]
+                    for a in refs:
+                        ts |= expr_types.get(a[1], set())
                 expr_types[op[1]] = ts
             elif u["k"] == "wrap":
                 ts = set()
